@@ -95,3 +95,8 @@ claim("C08", "DESIGN.md 5 C08",
       "For 13 payloader configurations: every byte string up to 5 (quick) / 6 (thorough) bytes over an 8-symbol codec alphabet x every MTU 0..12; a structured corpus per codec (30-60 inputs from the reference writers incl. malformed ones) x EVERY MTU 0..40 and 10 larger ones; and every history of up to 3 calls on one instance over 12 MTUs. Every call runs on an instance whose input buffer is overwritten right after Payload returns and on a twin fed pristine copies: no panic, every fragment 1..MTU bytes (Opus: the input as one fragment), caller buffer unchanged, fragments do not share memory with the input (by address), fragments returned earlier never change (checked after every later call and overwrite), and the twin produces identical output at every step.",
       "Corpora and alphabets are fixed lists stated in the evidence; VP9 uses a fixed InitialPictureIDFn so that the twins agree.",
       "bounded exhaustive enumeration of inputs, MTUs and call histories with an overwrite-twin differential oracle (explicit choice-tree DFS on the real code)")
+
+claim("C09", "DESIGN.md 5 C09",
+      "For 10 receiver kinds (H264Packet Annex-B/AVC, H265Packet +/-DONL, VP8Packet, VP9Packet, AV1Depacketizer, AV1Packet fresh/reused + frame.AV1, OpusPacket): nil, empty and EVERY byte string of up to 2 bytes (thorough: 3 bytes, all 16.8 M; quick: 3-byte strings over 40 symbols) into a fresh and a used receiver; and EVERY sequence of up to 3 (thorough 4) payloads from a ~40-payload corpus per codec (reference encoders: every descriptor option, fragment start/middle/end, aggregation, PACI, truncated and malformed payloads) fed to one receiver with IsPartitionHead/IsPartitionTail interleaved. No call may panic; per-packet formats must return the same bytes/error and the same exported fields and accessor values as a fresh receiver at every step; H264Packet and AV1Depacketizer run against a twin while their earlier input buffers are overwritten after every call and must give identical outputs.",
+      "Corpora are fixed lists generated from the reference encoders; nil vs empty slices are not distinguished.",
+      "bounded exhaustive enumeration of payload histories with fresh-twin and overwrite-twin differential oracles (explicit choice-tree DFS on the real code)")
